@@ -1,9 +1,10 @@
 #!/bin/bash
-# usage: all_quick.sh seed...   -- runs every quick check for each seed, prints one line per failure, summary at the end
+# usage: all_quick.sh seed...   -- runs every quick check for each seed ("default" = VERIF_SEED unset), prints one line per failure, summary at the end
 fail=0
 for sd in "$@"; do
   for c in C01 C02 C03 C04 C05 C06 C07 C08 C09 C10 C11 C12 C13 C14 C15 C16; do
-    out=$(VERIF_SEED=$sd /verif/run_check.sh $c quick 2>&1); rc=$?
+    if [ "$sd" = default ]; then out=$(env -u VERIF_SEED /verif/run_check.sh $c quick 2>&1); rc=$?
+    else out=$(VERIF_SEED=$sd /verif/run_check.sh $c quick 2>&1); rc=$?; fi
     if [ $rc -ne 0 ]; then fail=1; echo "seed=$sd $c rc=$rc"; echo "$out" | grep -v "^KNOWN" | tail -4; fi
   done
 done
